@@ -595,3 +595,214 @@ func globalIsErrSentinel(g *ssa.Global) bool {
 	}
 	return true
 }
+
+// ---- helper-extraction tolerance for boolean / error helpers ----
+
+// actual maps a parameter of a module function that has exactly one call site
+// in the module to the argument passed there (repeatedly); other values are
+// returned unchanged. It lets provenance rules look through an extracted
+// helper.
+func (c *Ctx) actual(v ssa.Value) ssa.Value {
+	for depth := 0; depth < 3; depth++ {
+		p, ok := ir.Strip(v).(*ssa.Parameter)
+		if !ok {
+			return v
+		}
+		fn := p.Parent()
+		idx := -1
+		for i, q := range fn.Params {
+			if q == p {
+				idx = i
+			}
+		}
+		var args []ssa.Value
+		for _, caller := range c.P.Funcs {
+			ir.Instrs(caller, func(in ssa.Instruction) {
+				cc := ir.CallOf(in)
+				if cc == nil || cc.IsInvoke() {
+					return
+				}
+				for _, t := range c.calleeFuncs(in) {
+					if t == fn && idx < len(cc.Args) {
+						args = append(args, cc.Args[idx])
+					}
+				}
+			})
+		}
+		if len(args) != 1 {
+			return v
+		}
+		v = args[0]
+	}
+	return v
+}
+
+// helperCallsOf: the plain calls in fn of module functions (not fn itself),
+// with the callee.
+type helperCall struct {
+	in     *ssa.Call
+	callee *ssa.Function
+}
+
+func (c *Ctx) helperCallsOf(fn *ssa.Function) []helperCall {
+	c.graph()
+	var out []helperCall
+	ir.Instrs(fn, func(in ssa.Instruction) {
+		call, ok := in.(*ssa.Call)
+		if !ok || call.Call.IsInvoke() {
+			return
+		}
+		for _, t := range c.calleeFuncs(in) {
+			if t != fn && t.Parent() == nil {
+				out = append(out, helperCall{call, t})
+			}
+		}
+	})
+	return out
+}
+
+// impliesTrue: value v being true implies that cond is true (v is cond, or a
+// short-circuit conjunction that contains it).
+func impliesTrue(v ssa.Value, cond ssa.Value, depth int) bool {
+	if v == cond {
+		return true
+	}
+	if depth > 4 {
+		return false
+	}
+	if phi, ok := v.(*ssa.Phi); ok && phi.Comment == "&&" {
+		for _, e := range phi.Edges {
+			if cb, isC := ir.ConstBool(e); isC && !cb {
+				continue
+			}
+			if impliesTrue(e, cond, depth+1) {
+				return true
+			}
+		}
+		// p && q: the phi is [false (from !p), q]; p itself guards the block of q
+		for i, e := range phi.Edges {
+			if cb, isC := ir.ConstBool(e); isC && !cb {
+				// edge taken when an earlier conjunct was false: that conjunct is the If of the pred
+				pred := phi.Block().Preds[i]
+				if iff, ok := pred.Instrs[len(pred.Instrs)-1].(*ssa.If); ok {
+					if impliesTrue(iff.Cond, cond, depth+1) {
+						// only when the false edge leads here (the true edge evaluates the rest)
+						if pred.Succs[1] == phi.Block() {
+							return true
+						}
+					}
+				}
+			}
+		}
+	}
+	return false
+}
+
+// liftGuard evaluates a guard inside fn or, when fn itself contains no site of
+// it, inside a helper called from fn whose positive result (true / nil) is
+// protected by the guard there; the helper call's tested result then is the
+// guard site in fn. mk builds the guard for a given function.
+func (c *Ctx) liftGuard(fn *ssa.Function, mk func(f *ssa.Function) guard, depth int) guard {
+	g := mk(fn)
+	if len(g.sites) > 0 || len(g.unchecked) > 0 && depth == 0 {
+		return g
+	}
+	if depth == 0 {
+		return g
+	}
+	out := guard{name: g.name}
+	for _, hc := range c.helperCallsOf(fn) {
+		h := hc.callee
+		gh := c.liftGuard(h, mk, depth-1)
+		if len(gh.sites) == 0 && len(gh.unchecked) == 0 {
+			continue
+		}
+		res := h.Signature.Results()
+		if res.Len() == 0 {
+			continue
+		}
+		last := res.At(res.Len() - 1).Type()
+		isBool := types.Identical(last.Underlying(), types.Typ[types.Bool])
+		if !isBool && !isErrorType(last) {
+			continue
+		}
+		// positive returns of the helper: program points from which a true / nil
+		// result can originate, each of which must lie behind the guard
+		cut := gh.cut()
+		reach := ir.ReachEntry(h, cut)
+		condVals := map[ssa.Value]bool{}
+		for _, u := range gh.unchecked {
+			if uv, ok := u.(ssa.Value); ok {
+				condVals[uv] = true
+			}
+		}
+		for _, st := range gh.sites {
+			if sv, ok := st.site.(ssa.Value); ok {
+				condVals[sv] = true
+			}
+		}
+		okHelper := true
+		nPos := 0
+		var visit func(v ssa.Value, blk *ssa.BasicBlock, viaCut bool, depth int)
+		visit = func(v ssa.Value, blk *ssa.BasicBlock, viaCut bool, depth int) {
+			if depth > 6 {
+				okHelper = false
+				return
+			}
+			if isBool {
+				if cb, isC := ir.ConstBool(v); isC && !cb {
+					return
+				}
+				if condVals[v] {
+					nPos++
+					return // the result IS the guard's own condition
+				}
+			} else if !ir.IsNil(v) && (nonNilAt(v, blk) || knownNonNilError(v)) {
+				return
+			}
+			if phi, ok := v.(*ssa.Phi); ok {
+				for k, e := range phi.Edges {
+					pred := phi.Block().Preds[k]
+					edgeCut := false
+					for si, sb := range pred.Succs {
+						if sb == phi.Block() && cut[ir.Edge{From: pred, Succ: si}] {
+							edgeCut = true
+						}
+					}
+					visit(e, pred, edgeCut, depth+1)
+				}
+				return
+			}
+			nPos++
+			if reach[blk] && !viaCut {
+				okHelper = false
+			}
+		}
+		for _, in := range find(h, isExit) {
+			r := in.(*ssa.Return)
+			visit(ir.RetVal(r, res.Len()-1), in.Block(), false, 0)
+		}
+		if nPos == 0 || len(gh.sites) == 0 && len(condVals) == 0 {
+			okHelper = false
+		}
+		if !okHelper {
+			continue
+		}
+		out.found++
+		var sub guard
+		if isBool {
+			sub = boolIs(g.name, []ssa.Instruction{hc.in}, res.Len()-1, true)
+		} else {
+			sub = errNil(g.name, []ssa.Instruction{hc.in}, res.Len()-1)
+		}
+		for i := range sub.sites {
+			sub.sites[i].site = hc.in
+		}
+		out.sites = append(out.sites, sub.sites...)
+		out.unchecked = append(out.unchecked, sub.unchecked...)
+	}
+	if len(out.sites) == 0 && len(out.unchecked) == 0 {
+		return g
+	}
+	return out
+}
